@@ -155,7 +155,7 @@ func genHeader(r *rng.R, tag string) http.Header {
 			for j, m := 0, 1+r.Intn(3); j < m; j++ {
 				opts = append(opts, r.Pick(connOpts))
 			}
-			lines = append(lines, strings.Join(opts, r.Pick([]string{",", ", ", " , "})))
+			lines = append(lines, strings.Join(opts, r.Pick([]string{",", ", ", " , ", ",\t", "\t,", " ,\t ", "\t,\t"})))
 		}
 		h["Connection"] = lines
 	}
@@ -327,6 +327,7 @@ func scorpus(tag string) []sreq {
 		base(http.Header{"Via": {"1.1 alpha", "1.0 beta"}, "X-A": {"1", "2", "1"}}),
 		base(http.Header{"Connection": {"x-a, close"}, "X-A": {"1"}, "X-B": {"2"}, "Keep-Alive": {"timeout=5"}}),
 		base(http.Header{"Connection": {"Upgrade"}, "Upgrade": {"websocket"}}),
+		base(http.Header{"Connection": {"keep-alive,\tX-A", "x-b\t, close"}, "X-A": {"1"}, "X-B": {"2"}, "X-Custom-Id": {"kept"}}),
 		base(http.Header{"Proxy-Authorization": {"Basic Zm9vOmJhcg=="}, "Authorization": {"Bearer t"}, "Te": {"trailers"}}),
 		base(http.Header{"User-Agent": {""}}),
 		base(http.Header{"X-Forwarded-Proto": {"https"}, "X-Forwarded-Host": {"c.example"}, "X-Forwarded-Url": {"https://c.example/x"}}),
